@@ -9,7 +9,7 @@ EXPLANATION = ('Static rules: P-a the source of a ConnectableObservable is subsc
                'ShareOp::new); P-b connect(self) consumes the connectable (no Clone impl) and in ShareOp*::actual_subscribe it is reachable '
                'only after the state was replaced by Connected, all under the ShareOp cell guard, so the source is subscribed exactly once '
                'also with racing first subscribers; P-c the last leaver is no longer counted when RefCountSubscription asks '
-               'is_empty() (either the subject size counts live publishers only, or retain() runs first), so the source is released; P-d the subject size covers both the live and the waiting list; P-g ShareOp::actual_subscribe unsubscribes nothing (only the returned RefCountSubscription tears the share down: a join never does); P-f Publisher::p_is_closed counts a subscriber as gone when its observer finished by itself OR it was unsubscribed (both consulted); P-e the inner subject multicasts every notification to every present subscriber (same rules as C06.J1/J2/J3/J4/J6). '
+               'is_empty() (either the subject size counts live publishers only, or retain() runs first), so the source is released; P-d the subject size covers both the live and the waiting list; P-g ShareOp::actual_subscribe unsubscribes nothing (only the returned RefCountSubscription tears the share down: a join never does); P-h nothing ShareOp::actual_subscribe does (helpers inlined) acquires the live subscriber list of the inner subject (a join from inside a callback happens while the multicast holds it); P-f Publisher::p_is_closed counts a subscriber as gone when its observer finished by itself OR it was unsubscribed (both consulted); P-e the inner subject multicasts every notification to every present subscriber (same rules as C06.J1/J2/J3/J4/J6). '
                'Does not decide join/leave histories beyond these rules; multicast itself is C06.')
 ASSUMPTIONS = []
 
@@ -125,6 +125,43 @@ def pg(cx):
                            g.loc(bad[0]) if bad else fn['span'], [node_desc(g, x) for x in bad]))
     if m < 2:
         res.append(Finding(ID, 'P-g', 'floor', False, 'ShareOp impls not found'))
+    return res + ph(cx)
+
+
+def ph(cx):
+    """a subscriber may join a connected share from inside another subscriber's callback, i.e. while the inner subject walks its
+    live list under that list's guard (C06: it is added to the waiting chamber for exactly this reason). So nothing that
+    ShareOp::actual_subscribe does (helpers inlined) may acquire the live list of the subject: the local form panics (RefCell
+    already borrowed, the emission is aborted mid-multicast), the thread-safe form blocks the emitting thread for ever"""
+    from . import c06
+    from ..core import guard_of
+    F = cx.facts
+    res = []
+    live = set()
+    for t in c06.SUBJECTS:
+        try:
+            live.add(c06._lists(cx, t)[0])
+        except Exception:
+            pass
+    m = 0
+    for im in F.impls_of('observable::Observable'):
+        tag = roles.impl_tag(cx, im)
+        if tag not in ('ops::ref_count::ShareOp', 'ops::ref_count::ShareOpThreads'):
+            continue
+        m += 1
+        fn = F.impl_fn(im, 'actual_subscribe')
+        g = cx.graph(fn['key'])
+        bad = []
+        for x in g.nodes:
+            gd = guard_of(x)
+            if gd and x['args'] and any(render(x['args'][0]).endswith('.' + l) for l in live):
+                bad.append(x)
+        res.append(Finding(ID, 'P-h', cx.label(fn), bool(live) and not bad,
+                           'joining a share touches the waiting chamber only' if live and not bad else
+                           ('joining a share acquires the live subscriber list of the inner subject: a subscriber that joins from inside another subscriber\'s callback (mid-emission) finds it held by the multicast - share() panics and the emission is aborted, share_threads() blocks the source for ever' if bad else 'live list of the subjects not identified'),
+                           g.loc(bad[0]) if bad else fn['span'], [node_desc(g, x) for x in bad]))
+    if m < 2:
+        res.append(Finding(ID, 'P-h', 'floor', False, 'ShareOp impls not found'))
     return res
 
 
